@@ -98,7 +98,8 @@ def rref(to, unique=False, parent=None):
 
 
 def gen_recipe(rng, t=None, p=None, layout=None, unique=None):
-    layout = layout or rng.choice(["table", "nick", "two_templates", "friend", "just_once", "nested", "forward_reserved"])
+    layout = layout or rng.choice(["table", "nick", "two_templates", "friend", "just_once", "nested", "forward_reserved",
+                                   "friend_nick", "nested_nick", "once_plus_repeating", "reserved_then_nick"])
     t = rng.randint(0, 6) if t is None else t
     p = rng.randint(0, 8) if p is None else p
     unique = (rng.random() < 0.5) if unique is None else unique
@@ -121,10 +122,27 @@ def gen_recipe(rng, t=None, p=None, layout=None, unique=None):
     elif layout == "forward_reserved":   # K3: an id of A is reserved by a forward reference before A's rows exist
         stmts = [tpl("F", 1, fields={"fwd": {"reference": "aa"}}), tpl("A", max(t, 1)),
                  tpl("P", max(p, 1), fields={"r": rref("A", unique)}), tpl("A", 1, nick="aa")]
+    elif layout == "friend_nick":        # the nickname is declared on a friend template only
+        to = "aa"
+        stmts = [tpl("Pa", rng.randint(1, 2), friends=[tpl("A", rng.randint(1, 2), nick="aa")]), tpl("A", rng.randint(0, 2)),
+                 tpl("P", max(p, 1), fields={"r": rref("aa", unique)})]
+    elif layout == "nested_nick":        # ... or on a template nested in a field
+        to = "aa"
+        stmts = [tpl("Pa", rng.randint(1, 2), fields={"kid": [tpl("A", 1, nick="aa")]}), tpl("A", rng.randint(0, 2)),
+                 tpl("P", max(p, 1), fields={"r": rref("aa", unique)})]
+    elif layout == "once_plus_repeating":   # one table fed by a just_once template and by a repeating one
+        n1, n2 = rng.choice([(None, None), ("a2", None), (None, "aa"), ("a2", "aa"), ("aa", "aa")])
+        to = rng.choice([x for x in ("A", n2) if x])
+        stmts = [tpl("A", rng.randint(1, 2), once=True, nick=n1), tpl("A", max(t, 1), nick=n2),
+                 tpl("P", max(p, 1), fields={"r": rref(to, unique)})]
+    elif layout == "reserved_then_nick":    # a reserved low id is saved after the nicknamed rows it precedes
+        to = "aa"
+        stmts = [tpl("F", 1, fields={"fwd": {"reference": "a2"}}), tpl("A", max(1, t % 3), nick="aa"),
+                 tpl("A", 1, nick="a2"), tpl("P", max(p, 1), fields={"r": rref("aa", unique)})]
     stmts.append(tpl(MARK))
     reps = rng.choice([1, 1, 2, 3])
     ks = [reps]
-    if rng.random() < 0.35:                     # a chain of continuation runs
+    if rng.random() < (0.8 if layout == "once_plus_repeating" else 0.35):    # a chain of continuation runs
         ks = rng.choice([[1, 1], [1, 2], [2, 1], [1, 1, 1]])
         reps = sum(ks)
     return {"kind": "recipe", "layout": layout, "t": t, "p": p, "unique": unique, "to": to,
@@ -327,7 +345,8 @@ def oracle_recipe(case, obs):
     this_iter = []
     seen_unique = set()
     nrefs = 0
-    for t, fs in rows:
+    all_rows = [(t, dict((k, v) for k, v in fs)) for t, fs in rows]
+    for pos, (t, fs) in enumerate(rows):
         d = dict((k, v) for k, v in fs)
         if t == MARK:
             this_iter = []
@@ -346,8 +365,11 @@ def oracle_recipe(case, obs):
             local = [(tt, i) for (tt, i, n) in this_iter if tt == "A" and (nick is None or n == nick)]
             got = (v[1], v[2])
             if got not in cands:
-                return (f"recipe[{case['layout']}]: random reference to {target_name} = {got[0]}({got[1]}) does not name an "
-                        f"already written row of it (written so far: {cands[:8]})")
+                if got in [(tt, i) for (tt, i, n) in written if tt == "A"]:
+                    return (f"recipe[{case['layout']}]: random reference to {target_name} = {got[0]}({got[1]}) names a row "
+                            f"created under another nickname (rows of {target_name} so far: {cands[:8]})")
+                return (f"recipe[{case['layout']}]: random reference to {target_name} = {got[0]}({got[1]}) names a row "
+                        f"that does not exist yet (reserved or never created id; written so far: {cands[:8]})")
             if local and got not in local:
                 return (f"recipe[{case['layout']}]: random reference to {target_name} = {got[0]}({got[1]}) ignores the rows "
                         f"of the current iteration {local[:8]}")
@@ -366,6 +388,9 @@ def oracle_recipe(case, obs):
         return f"recipe[table]: unique references failed although {case['t']} targets >= {case['p']} pickers: {obs.get('msg','')[:80]}"
     if case["layout"] == "table" and "err" in obs and case["t"] >= 1 and (not case["unique"] or case["p"] <= case["t"]):
         return f"recipe[table]: random_reference failed although targets exist: {obs.get('msg','')[:80]}"
+    if case["layout"] in ("friend_nick", "nested_nick", "once_plus_repeating") and "err" in obs and not case["unique"]:
+        return (f"recipe[{case['layout']}]: random_reference failed although rows of the target exist before every "
+                f"picker: {obs.get('msg','')[:120]}")
     return None
 
 
@@ -421,6 +446,8 @@ def match_finding(case, obs, msg, findings):
     if "K3" in ids:
         if case["kind"] == "script" and case.get("out_of_order"):
             return "K3"
-        if case["kind"] == "recipe" and case["layout"] == "forward_reserved":
+        if case["kind"] == "recipe" and case["layout"] in ("forward_reserved", "reserved_then_nick") \
+                and ("does not exist yet (reserved" in msg or "Problem rendering value" in msg
+                     or "ignores the rows of the current iteration" in msg):
             return "K3"
     return None
